@@ -160,7 +160,7 @@ def getters(R, ro):
                 "%s() no longer reads the per-thread scheduler state" % fn)
 
 
-def active_own(R, ro):
+def active_own(R, ro, rule="C08.ACTIVE-OWN"):
     """self.active_task is written only by the continue-task method (save/set/restore) and by
     reset(): any other writer changes what get_active_task() reports while a task's code runs."""
     ct = ro.continue_task_method()
@@ -174,7 +174,7 @@ def active_own(R, ro):
             if rc is not None and not any(c is not None and c.is_subclass_of(ro.TS) for c in rc):
                 continue
             n += 1
-            R.check(f.qualname in allowed, "C08.ACTIVE-OWN", "%s:%s" % (f.qualname, q.stmt_key(q.enclosing_stmt(node))), R.site(f, node),
+            R.check(f.qualname in allowed, rule, "%s:%s" % (f.qualname, q.stmt_key(q.enclosing_stmt(node))), R.site(f, node),
                     "%s writes the scheduler's active_task (the save/set/restore pair or reset)" % f.name,
                     "%s overwrites the scheduler's active_task outside the save/set/restore pair of the continue-task method: the task whose code is running "
                     "(e.g. one that made a nested synchronous call) is no longer reported by get_active_task(), and contexts it enters are not registered" % f.qualname)
